@@ -64,6 +64,9 @@ Section Detect.
         end
     end.
 
+  (* the same under a name no other model uses (for extraction) *)
+  Definition detect_format (tm tj ty : trial) (st : pstate) := detect tm tj ty st.
+
   Definition detect_reader (tm tj ty : trial) (d : bytes) (flt : option nat) :=
     detect tm tj ty (start (from_reader d flt)).
 End Detect.
